@@ -15,7 +15,11 @@ PROP = {'rule': 'history: rapid state machine, one weighted "request" action (cr
          'history. exhaustive: every request sequence of length <=3 (thorough: <=4, 12 shards partition the first request) over names a,b,c with '
          'parent in {root,a,b,c}, is-parent in {T,F}, min.cpu in {1,2}, max={cpu:2}, namespaces in {none,[n1]}, in two pod environments, '
          'breadth-first; descent only below accepted requests because a rejected request is verified to leave the whole record byte-identical; '
-         'non-trivial = the last request is a parent change (accepted or rejected) of a quota that has children.',
+         'non-trivial = the last request is a parent change (accepted or rejected) of a quota that has children. listFault: request histories '
+         '(create / createUnder / pods mostly labelled with an admitted quota / delete preferring childless quotas that have labelled pods / '
+         'is-parent toggles / updates) in which the stub client FAILS a drawn subset of the pod List calls of a delete or update (first call, '
+         'every call, or the k-th call; half of these requests have no fault); same oracle, which never looks at the fault; non-trivial = a '
+         'DELETE of a childless quota with >=1 labelled pod had its pod List failed.',
  'assumptions': ['feature gates that change the admission rules are pinned at their defaults (ElasticQuotaEnableUpdateResourceKey, '
                  'ElasticQuotaGuaranteeUsage, SupportParentQuotaSubmitPod, MultiQuotaTree, DisableDefaultQuota = false)',
                  "the escape-hatch labels allow-force-update and is-root are never generated (outside the statement's universe)",
@@ -25,6 +29,8 @@ PROP = {'rule': 'history: rapid state machine, one weighted "request" action (cr
                  'through their namespace are generated and counted but not asserted',
                  'pod lists come from a stub client.Client with the semantics of the manager cache for the two list shapes the webhook issues '
                  '(field index label.quotaName as registered in pkg/util/fieldindex, and namespace listing)',
+                 'API faults: only a failing client.List for pods during the validation of a delete/update is injected; "List failed => rejected" '
+                 'is not asserted as such (only through the clauses: a quota with labelled pods is not deleted, rejected => record unchanged)',
                  'single webhook replica: informer events, when delivered, arrive in order right after the accepted request',
                  'overlapping requests: only the pair (DELETE inside its pod List, one other request) is generated; completion order is decided '
                  'by probing quotaTopology.lock (TryLock) when the List happens, never by a clock; the timers in the hook are safety nets whose '
@@ -36,6 +42,7 @@ PROP = {'rule': 'history: rapid state machine, one weighted "request" action (cr
             'pkg': 'pkg/webhook/elasticquota',
             'files': ['C15/c15_quota_tree_test.go'],
             'tests': [{'run': 'TestVerifC15History', 'quick': 6000, 'thorough': 25000, 'steps': 20, 'quick_shards': 3, 'shrinktime': '15s'},
+                      {'run': 'TestVerifC15ListFault', 'quick': 3000, 'thorough': 8000, 'steps': 14, 'shrinktime': '15s'},
                       {'run': 'TestVerifC15Exhaustive', 'rapid': False, 'shards': 12, 'env': {'VERIF_C15_SHARDS': '12'},
                        'timeout_quick': 300, 'timeout_thorough': 1500}]}],
  'manifest': {'technique': 'property-based testing (rapid): model-based state machine over admission request histories with an independent '
